@@ -66,6 +66,10 @@ PROP = {
          'tests': [{'run': 'TestVerifC16ProxySequential', 'quick': 2000, 'thorough': 10000},
                    {'run': 'TestVerifC16ProxyInterleaved', 'quick': 600, 'thorough': 2000},
                    {'run': 'TestVerifC16ProxyParallel', 'quick': 300, 'thorough': 1500, 'race': True, 'shrinktime': '5s'}]},
+        {'name': 'cycle',
+         'pkg': 'pkg/descheduler',
+         'files': ['C16/c16_cycle_test.go'],
+         'tests': [{'run': 'TestVerifC16DeschedulerCycle', 'quick': 1500, 'thorough': 8000}]},
         {'name': 'arbitrator',
          'pkg': 'pkg/descheduler/controllers/migration/arbitrator',
          'files': ['C16/c16_arbitrator_test.go'],
